@@ -334,7 +334,7 @@ static bool parseScenario(const std::string& data, Scenario& sc, std::string& er
                 size_t c = tok.find(':');
                 if (c != std::string::npos) { s.unit = atoi(tok.c_str() + c + 1); tok = tok.substr(0, c); }
                 s.op = tok;
-                static const char* const ops[] = {"new", "delete", "compile", "parse", "parsex", "run", "runcp", "runcs", "runps",
+                static const char* const ops[] = {"new", "delete", "compile", "parse", "parsex", "run", "runf", "runcp", "runcs", "runps",
                                                   "dcs", "dps", "params", "clearparams", "install", "uninstall", 0};
                 bool ok = false;
                 for (int i = 0; ops[i]; ++i) if (s.op == ops[i]) ok = true;
@@ -354,7 +354,7 @@ static const char* stepKind(const std::string& op)
     if (op == "new") return "construct";
     if (op == "compile") return "compile";
     if (op == "parse" || op == "parsex") return "parse";
-    if (op == "run" || op == "runcp" || op == "runcs" || op == "runps") return "transform";
+    if (op == "run" || op == "runf" || op == "runcp" || op == "runcs" || op == "runps") return "transform";
     if (op == "delete" || op == "dcs" || op == "dps") return "destroy";
     return "other";
 }
@@ -629,6 +629,26 @@ struct Runner
             sin.setSystemId(XalanDOMString(sysx, mm).c_str());
             XSLTResultTarget tgt(&os, mm);
             rc = T->transform(xin, sin, tgt);
+        }
+        else if (s.op == "runf")
+        {
+            // the result goes to a FILE NAME: the library opens, owns and closes the stream (XalanFileOutputStream + print writer)
+            char fname[96];
+            snprintf(fname, sizeof fname, "/dev/shm/xfault.%ld.out", (long)getpid());
+            struct Unlink { const char* f; ~Unlink() { unlink(f); } } ul = { fname };
+            std::istringstream xs(text(sc.xml, s.unit)), ss(text(sc.xsl, s.unit));
+            XSLTInputSource xin(&xs, mm), sin(&ss, mm);
+            xin.setSystemId(XalanDOMString(sysd, mm).c_str());
+            sin.setSystemId(XalanDOMString(sysx, mm).c_str());
+            {
+                XSLTResultTarget tgt(XalanDOMString(fname, mm), mm);
+                rc = T->transform(xin, sin, tgt);
+            }
+            std::ifstream in(fname, std::ios::binary);
+            std::ostringstream content;
+            content << in.rdbuf();
+            out = content.str();
+            return rc;
         }
         else if (s.op == "runcp")
         {
